@@ -1,6 +1,7 @@
 """C05 — multi-controlled X: McxVchainDirty, LinearMcx, Toffoli, apply_ctrl_state (qclib/gates/mcx.py,
 toffoli.py, util.py).  The majority gate part lives in props/c05_majority.py (integrator)."""
 import itertools
+import json
 import math
 import os
 import numpy as np
@@ -555,6 +556,810 @@ def boundary_jobs(ctx):
     return jobs
 
 
+# ================================================================================================
+# input-diversity pass (forms of otherwise ordinary inputs)
+# ================================================================================================
+# form x entry point -> where generated (all in `diversity_cases`, evaluated by `div_eval`, both tiers)
+#   entry points: V = McxVchainDirty(...) gate object, L = LinearMcx(...) gate object, T = Toffoli(...) gate object,
+#                 Tc = static Toffoli.ccx(circuit, controls, target, cancel),
+#                 Vs / Ls = static McxVchainDirty.mcx_vchain_dirty / LinearMcx.mcx (raise on EVERY call on the unchanged tree:
+#                 known findings K-C15-1 / K-C15-2, probed by C15; here `static_mcx_helpers` calls them with every keyword
+#                 set and evaluates the host permutation as soon as a call succeeds, otherwise counts the exception)
+#   1 element types    num_controls / num_target_qubit as int, bool (True = 1), numpy.int64 (qiskit's Gate rejects it:
+#                      counted as unsupported form) : V L `ktype`;  ctrl_state None / str / all-ones / all-zeros / mixed /
+#                      list and tuple of '0','1' characters (accepted by the code: same observable) / int (unsupported:
+#                      TypeError at definition time) : V L `cstype`;  qubit indices int / numpy.int64 / Qubit / mixed : V L T Tc
+#   2 scale structure  not applicable to integer inputs; the analogue "borrowed-ancilla input states": ancillae |0..0>,
+#   3 sign / phase     |1..1>, products of |+>,|->,|+i>, GHZ on the ancillae with phase -1 / i, ancillae entangled with
+#                      the controls (matching branch / mismatching branch) with phase -1 / i : `div_states`, sparse
+#                      simulation of the flattened HOST circuit, every V / L case with a borrowed qubit; plus the full host
+#                      Operator (<= 9 qubits) or a random dense host state (10, 11 qubits), which cover every input state
+#   4 call forms       constructor positional / all keywords / only the non-default keywords; every flag at once
+#                      (ctrl_state with zeros + relative_phase + action_only + 2 targets: tie only, outside the property)
+#                      and one at a time : V L T;  host larger than the gate, qubit list non-ascending / non-contiguous /
+#                      interleaved (flat host) or host built from registers c, a, t, i declared in 5 orders with permuted
+#                      indices inside each register; qargs as ints, numpy ints, Qubit objects, mixed : V L T Tc;
+#                      Tc additionally: controls as list / tuple / QuantumRegister / reversed register slice, target as
+#                      int / Qubit / one-element list / one-element register, cancel positional / keyword;
+#                      same gate object appended twice; gate.copy() taken before .definition is read, both used on
+#                      different qubit lists; gate.inverse(); compose(gate.definition, qubits=...), definition.to_gate(),
+#                      definition.to_instruction() : V L T;  action_only: `chain ; mid ; chain.inverse()` = MCX ; mid ; MCX
+#                      (C05_action_only_bracket) and the structure of the leftover relabelling S = U * MCX
+#                      (C05_vchain_action_only / C05_linear_action_only: signed permutation, involution, identity on the
+#                      last control, the targets and every idle wire; moves only borrowed qubits) : V L
+#                      NOT generated: ancilla lists longer / shorter than needed, targets as one Qubit vs list - these are
+#                      parameters of Vs / Ls only, which cannot be called successfully (see above)
+#   5 sizes            V: k = 1..5 x t = 1, 2, 3 x rp x ao, each with a call form / host / qubit form drawn in rotation
+#                      (3-control shortcut k = 3, t = 1 vs t = 2; k = 2, 1 special cases); L: k = 1..8 (branches < 5, 5, 6, 7
+#                      qubits, first splits k = 6, 7, 8) x ao
+#   tie: the flattened HOST circuit with the host wires mapped back to the gate's own wires is registered with the same
+#   op as the bare definition (single-gate uses: append / compose / to_gate / to_instruction); every other use and the
+#   element-type / register forms are oracle only (the Lean model has no notion of a host, a copy or a Python type).
+
+DIV_OP_MAX = 8          # full Operator of the host (0.5 s per 9-qubit LinearMcx host: too slow for a few hundred cases)
+DIV_AO_OP_MAX = 9       # action_only checks need the Operator
+DIV_SV_MAX = 11         # random dense host state
+DIV_ORDERS = ("cati", "tcai", "aitc", "itac", "ctia")
+DIV_USES = ("append", "twice", "copy", "inverse", "compose", "to_gate", "to_instruction")
+DIV_QFORMS = ("int", "qubit", "mixed", "npint")
+DIV_CTORS = ("positional", "keyword", "minimal")
+
+
+def div_roles(gate, p):
+    if gate == "vchain":
+        return "c" * p["k"] + "a" * max(p["k"] - 2, 0) + "t" * p["t"]
+    if gate == "linear":
+        return "c" * p["k"] + "t" + "a"
+    return "cct"
+
+
+def div_host(r, roles, style, order, n_idle):
+    """host spec ([[register name, size], ...]) and placement ([[register name, index], ...] per local wire)."""
+    m = len(roles)
+    if style == "natural":
+        return [["q", m]], [["q", i] for i in range(m)]
+    if style == "flat":
+        n = m + n_idle
+        place = r.sample(range(n), m)
+        if place == sorted(place):
+            place = place[::-1]
+        return [["q", n]], [["q", i] for i in place]
+    sizes = {ch: roles.count(ch) for ch in "cat"}
+    sizes["i"] = n_idle
+    host = [[ch, sizes[ch]] for ch in order if sizes[ch] > 0]
+    perm = {}
+    for ch in "cat":
+        q = list(range(sizes[ch]))
+        r.shuffle(q)
+        if len(q) >= 2 and q == sorted(q):
+            q = q[::-1]
+        perm[ch] = q
+    seen = {ch: 0 for ch in "cat"}
+    place = []
+    for ch in roles:
+        place.append([ch, perm[ch][seen[ch]]])
+        seen[ch] += 1
+    return host, place
+
+
+def div_wires(case, place=None):
+    off, o = {}, 0
+    for nm, sz in case["host"]:
+        off[nm] = o
+        o += sz
+    return [off[nm] + i for nm, i in (case["place"] if place is None else place)], o
+
+
+def div_split(gate, p, wires):
+    k = p["k"] if gate != "toffoli" else 2
+    if gate == "vchain":
+        na = max(k - 2, 0)
+        return wires[:k], wires[k:k + na], wires[k + na:]
+    if gate == "linear":
+        return wires[:k], [wires[k + 1]], [wires[k]]
+    return wires[:2], [], [wires[2]]
+
+
+def div_states(r, n, ctrl, anc, tg, bits):
+    """Sparse input states of the host: borrowed qubits in every kind of state, controls matching or not, idle wires and
+    targets random basis values.  [[name, [[index, re, im], ...]], ...]"""
+    used = set(ctrl + anc + tg)
+    idle = [w for w in range(n) if w not in used]
+    amask = sum(1 << w for w in anc)
+
+    def base(match, anc_bits=None):
+        b = 0
+        wrong = set() if match else {r.randrange(len(ctrl))}
+        for i, w in enumerate(ctrl):
+            b |= (bits[i] ^ (1 if i in wrong else 0)) << w
+        for w in tg + idle:
+            b |= r.randint(0, 1) << w
+        if anc_bits is None:
+            for w in anc:
+                b |= r.randint(0, 1) << w
+        elif anc_bits:
+            b |= amask
+        return b
+
+    s2 = 1 / math.sqrt(2)
+    out = []
+    for match in (True, False):
+        tag = "match" if match else "mismatch"
+        out.append([f"anc-zeros:{tag}", [[base(match, 0), 1.0, 0.0]]])
+        if anc:
+            out.append([f"anc-ones:{tag}", [[base(match, 1), 1.0, 0.0]]])
+            ph = r.choice([-1, 1j, -1j])
+            b0 = base(match, 0)
+            out.append([f"anc-ghz-phase:{tag}", [[b0, s2, 0.0], [b0 | amask, s2 * ph.real, s2 * ph.imag]]])
+            terms = [[base(match, 0), 1.0 + 0j]]
+            for w in anc[:4]:
+                ph = r.choice([1, -1, 1j])
+                terms = [[i, a * s2] for i, a in terms] + [[i | (1 << w), a * ph * s2] for i, a in terms]
+            out.append([f"anc-product-phases:{tag}", [[i, a.real, a.imag] for i, a in terms]])
+    if anc:
+        # borrowed qubits entangled with the controls: matching controls with ancillae 0..0, one wrong control with 1..1
+        ph = r.choice([-1, 1j])
+        b0 = base(True, 0)
+        j = r.randrange(len(ctrl))
+        b1 = (b0 ^ (1 << ctrl[j])) | amask
+        out.append(["anc-entangled-with-controls", [[b0, s2, 0.0], [b1, s2 * ph.real, s2 * ph.imag]]])
+    return out
+
+
+def div_case(r, gate, p, use="append", ctor="positional", ktype="int", cstype="str", style="flat", order="cati",
+             qform="int", n_idle=None):
+    roles = div_roles(gate, p)
+    if n_idle is None:
+        n_idle = 0 if style == "natural" or (p.get("ao") and len(roles) >= 8) else (1 if len(roles) >= 7 else 2)
+    host, place = div_host(r, roles, style, order, n_idle)
+    case = {"gate": gate, "p": p, "use": use, "ctor": ctor, "ktype": ktype, "cstype": cstype, "style": style,
+            "order": order, "qform": qform, "host": host, "place": place, "seed": r.getrandbits(31)}
+    wires, n = div_wires(case)
+    if use == "copy":
+        # the copy goes onto a different qubit list: controls rotated by one (k >= 2), else targets / whole list reversed
+        nc = len(div_split(gate, p, wires)[0])
+        case["place2"] = (place[1:nc] + place[:1] + place[nc:]) if nc >= 2 else place
+    if gate != "toffoli" and not p.get("ao"):
+        ctrl, anc, tg = div_split(gate, p, wires)
+        case["states"] = div_states(r, n, ctrl, anc, tg, pattern_bits(p["k"], p.get("cs")))
+    return case
+
+
+def div_key(case):
+    p = case["p"]
+    if case["gate"] == "toffoli":
+        head = f"div:toffoli:cancel={p.get('cancel')}"
+    else:
+        head = (f"div:{case['gate']}:k={p['k']}:t={p.get('t', 1)}:cs={p.get('cs')}:rp={int(p.get('rp', False))}:"
+                f"ao={int(p.get('ao', False))}")
+    return (f"{head}:{case['use']}:{case['ctor']}:{case['ktype']}/{case['cstype']}:{case['style']}/{case['order']}:"
+            f"{case['qform']}:{case.get('cform', '-')}")
+
+
+def div_make_gate(case):
+    from qclib.gates.mcx import McxVchainDirty, LinearMcx
+    from qclib.gates.toffoli import Toffoli
+    p, ctor = case["p"], case["ctor"]
+    if case["gate"] == "toffoli":
+        if ctor == "minimal" and p.get("cancel") is None:
+            return Toffoli()
+        return Toffoli(p.get("cancel")) if ctor == "positional" else Toffoli(cancel=p.get("cancel"))
+    conv = {"int": int, "bool": bool, "np.int64": np.int64}[case["ktype"]]
+    k = conv(p["k"])
+    cs = p.get("cs")
+    if cs is not None:
+        cs = {"str": str, "list": list, "tuple": tuple, "int": lambda s: int(s, 2)}[case["cstype"]](cs)
+    if case["gate"] == "vchain":
+        t = conv(p["t"])
+        if ctor == "positional":
+            return McxVchainDirty(k, t, cs, p["rp"], p["ao"])
+        if ctor == "keyword":
+            return McxVchainDirty(action_only=p["ao"], relative_phase=p["rp"], ctrl_state=cs, num_target_qubit=t,
+                                  num_controls=k)
+        kw = {}
+        if p["t"] != 1:
+            kw["num_target_qubit"] = t
+        if cs is not None:
+            kw["ctrl_state"] = cs
+        if p["rp"]:
+            kw["relative_phase"] = True
+        if p["ao"]:
+            kw["action_only"] = True
+        return McxVchainDirty(k, **kw)
+    if ctor == "positional":
+        return LinearMcx(k, cs, p["ao"])
+    if ctor == "keyword":
+        return LinearMcx(action_only=p["ao"], ctrl_state=cs, num_controls=k)
+    kw = {}
+    if cs is not None:
+        kw["ctrl_state"] = cs
+    if p["ao"]:
+        kw["action_only"] = True
+    return LinearMcx(k, **kw)
+
+
+def div_qargs(case, host, regs, place):
+    """The qubit list in the form the case asks for."""
+    wires, _ = div_wires(case, place)
+    out = []
+    for j, ((nm, i), w) in enumerate(zip(place, wires)):
+        form = case["qform"]
+        if form == "mixed":
+            form = ("int", "qubit", "npint")[j % 3]
+        out.append(w if form == "int" else np.int64(w) if form == "npint" else regs[nm][i])
+    return out
+
+
+CCX_CONTROL_FORMS = ("list-int", "tuple-int", "list-npint", "list-qubit", "tuple-qubit", "mixed", "register",
+                     "register-reversed-slice")
+CCX_TARGET_FORMS = ("int", "npint", "qubit", "list1", "register1")
+CCX_ARG_FORMS = ("positional", "keyword", "mixed", "cancel-omitted")
+
+
+def div_call_ccx(case, host, regs, wires):
+    """static Toffoli.ccx(circuit, controls, target, cancel) with the controls / target / arguments in the form case['cform']"""
+    from qclib.gates.toffoli import Toffoli
+    cf, tf, af = case["cform"].split("/")
+    (n0, i0), (n1, i1), (nt, it) = case["place"]
+    q = [regs[n0][i0], regs[n1][i1]]
+    if cf == "list-int":
+        controls = [wires[0], wires[1]]
+    elif cf == "tuple-int":
+        controls = (wires[0], wires[1])
+    elif cf == "list-npint":
+        controls = [np.int64(wires[0]), np.int64(wires[1])]
+    elif cf == "list-qubit":
+        controls = q
+    elif cf == "tuple-qubit":
+        controls = tuple(q)
+    elif cf == "mixed":
+        controls = [wires[0], q[1]]
+    elif cf == "register":
+        controls = regs["c"]
+    elif cf == "register-reversed-slice":
+        controls = regs["c"][::-1]
+    else:
+        raise RuntimeError("harness: controls form " + cf)
+    target = {"int": wires[2], "npint": np.int64(wires[2]), "qubit": regs[nt][it], "list1": [wires[2]],
+              "register1": regs[nt]}[tf]
+    cancel = case["p"].get("cancel")
+    if af == "positional":
+        Toffoli.ccx(host, controls, target, cancel)
+    elif af == "keyword":
+        Toffoli.ccx(cancel=cancel, target=target, controls=controls, circuit=host)
+    elif af == "mixed":
+        Toffoli.ccx(host, controls, cancel=cancel, target=target)
+    elif af == "cancel-omitted":             # only generated for cancel = None
+        Toffoli.ccx(host, controls, target)
+    else:
+        raise RuntimeError("harness: argument form " + af)
+
+
+def toffoli_ccx_cases(ctx):
+    """Static Toffoli.ccx on hosts larger than three qubits: every controls form x target form x argument form in
+    rotation over cancel = None / left / right, flat hosts (non-ascending, non-contiguous) and register hosts in every
+    declaration order."""
+    r = ctx.rng
+    cases = []
+    i = r.randrange(120)
+    for cancel in (None, "left", "right"):
+        for cf in CCX_CONTROL_FORMS:
+            for rep_ in range(3):
+                i += 1
+                tf = CCX_TARGET_FORMS[i % 5]
+                af = CCX_ARG_FORMS[(i // 2) % (4 if cancel is None else 3)]
+                regs_needed = cf.startswith("register") or tf == "register1"
+                style = "regs" if regs_needed or i % 2 else "flat"
+                case = div_case(r, "toffoli", dict(cancel=cancel), use="ccx", style=style, order=DIV_ORDERS[i % 5],
+                                qform="-", n_idle=r.choice((1, 2, 3)))
+                if cf == "register":
+                    case["place"][0], case["place"][1] = ["c", 0], ["c", 1]
+                elif cf == "register-reversed-slice":
+                    case["place"][0], case["place"][1] = ["c", 1], ["c", 0]
+                case["cform"] = f"{cf}/{tf}/{af}"
+                ctx.count("diversity:Toffoli.ccx:controls " + cf)
+                ctx.count("diversity:Toffoli.ccx:target " + tf)
+                ctx.count("diversity:Toffoli.ccx:arguments " + af)
+                cases.append(case)
+    return cases
+
+
+def static_mcx_helpers(ctx):
+    """McxVchainDirty.mcx_vchain_dirty / LinearMcx.mcx (static append helpers).  On the unchanged tree EVERY call raises
+    (known findings K-C15-1 / K-C15-2 of property C15: the helpers have no parameter for the borrowed qubits and hand their
+    arguments to the constructor one position too early), so no host placement can be observed through them; each call
+    form is made anyway - by keyword, found by name in the helper's signature - and evaluated against the host permutation
+    as soon as a call succeeds (a repaired helper is then checked on non-ascending, non-contiguous qubit lists)."""
+    import inspect
+    from qiskit import QuantumCircuit
+    from qiskit.quantum_info import Operator
+    from qclib.gates.mcx import McxVchainDirty, LinearMcx
+    r = ctx.rng
+    for name, fn, kind in (("McxVchainDirty.mcx_vchain_dirty", McxVchainDirty.mcx_vchain_dirty, "vchain"),
+                           ("LinearMcx.mcx", LinearMcx.mcx, "linear")):
+        params = list(inspect.signature(fn).parameters)
+        anc_par = next((a for a in params if a.startswith("ancil")), None)
+        tg_par = "targets" if "targets" in params else "target"
+        for k in (1, 2, 3, 4):
+            for form in ("defaults", "every-keyword", "qubit-objects"):
+                na = (max(k - 2, 0) if kind == "vchain" else 1)
+                n = k + na + 1 + 2
+                where = r.sample(range(n), k + na + 1)
+                ctrl, anc, tg = where[:k], where[k:k + na], where[k + na:]
+                cs = None if form == "defaults" else "".join(r.choice("01") for _ in range(k - 1)) + "0"
+                host = QuantumCircuit(n)
+                conv = (lambda w: host.qubits[w]) if form == "qubit-objects" else (lambda w: w)
+                kw = {"controls": [conv(w) for w in ctrl], tg_par: [conv(w) for w in tg] if tg_par == "targets" else conv(tg[0])}
+                if anc_par is not None:
+                    kw[anc_par] = [conv(w) for w in anc] if (kind == "vchain" or anc_par.endswith("e") or
+                                                              anc_par.endswith("s")) else conv(anc[0])
+                if form != "defaults":
+                    kw["ctrl_state"] = cs
+                rp = False
+                if form == "every-keyword" and "relative_phase" in params and k >= 3:
+                    kw["relative_phase"] = rp = True
+                tag = f"diversity:static:{name}:{form}"
+                key = f"div:static:{name}:k={k}:{form}:cs={cs}"
+                rep = {"kind": "diversity", "method": "diversity-static", "params": {"k": k}}
+                try:
+                    fn(host, **kw)
+                    op = Operator(host).data
+                except Exception as e:
+                    ctx.count(f"{tag}:raises-{type(e).__name__} (known finding K-C15-{1 if kind == 'linear' else 2}, probed by C15)")
+                    continue
+                if anc_par is None and na and kind == "linear":
+                    ctx.count(tag + ":succeeded-without-an-ancilla-argument (not evaluated)")
+                    continue
+                dest = ref_dest(n, ctrl, pattern_bits(k, cs), tg)
+                idx = np.arange(2 ** n)
+                ent = op[dest, idx].copy()
+                op[dest, idx] = 0
+                err = max(float(np.abs(op).max()), float(np.abs(np.abs(ent) - 1).max() if rp else np.abs(ent - 1).max()))
+                ctx.count(tag + ":evaluated")
+                if err > TOL:
+                    ctx.fail(key, f"{name}(host of {n} qubits, controls {ctrl}, ancillae {anc}, target {tg}, ctrl_state "
+                                  f"{cs!r}): max deviation from the host permutation {err:.3e}", rep)
+                else:
+                    ctx.ok(key, nontrivial=k >= 2)
+
+
+def run_diversity(ctx):
+    from concurrent.futures import ProcessPoolExecutor
+    import multiprocessing as mp
+    static_mcx_helpers(ctx)
+    cases = diversity_cases(ctx) + toffoli_ccx_cases(ctx)
+    workers = int(os.environ.get("C05_WORKERS", "8"))
+    if workers <= 1:
+        results = [div_eval(c) for c in cases]
+    else:
+        with ProcessPoolExecutor(max_workers=workers, mp_context=mp.get_context("fork")) as ex:
+            results = list(ex.map(div_eval, cases, chunksize=8))
+    for case, res in zip(cases, results):
+        div_record(ctx, case, res)
+
+
+def embed(mat, wires, n):
+    """mat (2^m x 2^m, local bit j = wire wires[j]) on an n-qubit host, identity elsewhere."""
+    idx = np.arange(2 ** n, dtype=np.int64)
+    loc = np.zeros(2 ** n, dtype=np.int64)
+    for j, w in enumerate(wires):
+        loc |= ((idx >> w) & 1) << j
+    rest = idx & ~np.int64(sum(1 << w for w in wires))
+    full = np.zeros((2 ** n, 2 ** n), dtype=complex)
+    for lo in range(2 ** len(wires)):
+        dst = rest.copy()
+        for j, w in enumerate(wires):
+            dst |= np.int64(((lo >> j) & 1) << w)
+        full[dst, idx] = mat[lo, loc]
+    return full
+
+
+def toffoli_ref(cancel):
+    """8 x 8 matrix of the relative-phase Toffoli (halves for cancel = 'left' / 'right') from the documented gate list
+    u(-pi/4) t, cx c0 t, u(-pi/4) t | cx c1 t | u(pi/4) t, cx c0 t, u(pi/4) t  (wires c0 = 0, c1 = 1, t = 2), numpy only."""
+    cx = np.array([[1, 0, 0, 0], [0, 0, 0, 1], [0, 0, 1, 0], [0, 1, 0, 0]], dtype=complex)   # local bit 0 = control
+    th = math.pi / 4
+
+    def u(a):
+        return embed(u_matrix(a, 0.0, 0.0), [2], 3)
+
+    seq = []
+    if cancel != "left":
+        seq += [u(-th), embed(cx, [0, 2], 3), u(-th)]
+    seq.append(embed(cx, [1, 2], 3))
+    if cancel != "right":
+        seq += [u(th), embed(cx, [0, 2], 3), u(th)]
+    m = np.eye(8, dtype=complex)
+    for g in seq:
+        m = g @ m
+    return m
+
+
+def mono_ideal(n, gate, p, wires):
+    """(dest, coeff, sign_known): the gate on the host is x -> coeff[x] |dest[x]>; coeff is all ones for the exact gates,
+    the explicit +-1 diagonal of C05_vchain_relphase where it is known (k >= 3, one target)."""
+    ctrl, anc, tg = div_split(gate, p, wires)
+    bits = pattern_bits(p["k"], p.get("cs"))
+    dest = ref_dest(n, ctrl, bits, tg)
+    coeff = np.ones(2 ** n, dtype=complex)
+    known = True
+    if p.get("rp"):
+        if p["k"] >= 3 and len(tg) == 1:
+            coeff = relphase_sign(n, ctrl, bits, tg[0])[dest].astype(complex)
+        else:
+            known = False
+    return dest, coeff, known
+
+
+def mono_then(m1, m2):
+    d1, c1, k1 = m1
+    d2, c2, k2 = m2
+    return d2[d1], c1 * c2[d1], k1 and k2
+
+
+def mono_inv(m):
+    d, c, k = m
+    inv = np.empty_like(d)
+    inv[d] = np.arange(len(d))
+    ci = np.empty_like(c)
+    ci[d] = np.conj(c)
+    return inv, ci, k
+
+
+def div_ao_structure(gate, p, n, wires, op):
+    """C05_vchain_action_only / C05_linear_action_only on the host: U = S * MCX with S a signed permutation, an
+    involution, acting as the identity on every free wire, its permutation part changing only borrowed qubits (V-chain)."""
+    ctrl, anc, tg = div_split(gate, p, wires)
+    dest = ref_dest(n, ctrl, pattern_bits(p["k"], p.get("cs")), tg)
+    s = op[:, dest]                     # S e_x = U e_{dest[x]}   (MCX is an involution)
+    idx = np.arange(2 ** n, dtype=np.int64)
+    pi = np.abs(s).argmax(axis=0).astype(np.int64)
+    sg = s[pi, idx]
+    rest = s.copy()
+    rest[pi, idx] = 0
+    err = max(float(np.abs(rest).max()), float(np.abs(np.abs(sg) - 1).max()), float(np.abs(sg.imag).max()))
+    if err > TOL:
+        return f"S = U * MCX is not a signed permutation (deviation {err:.3e})"
+    if not (np.array_equal(pi[pi], idx) and float(np.abs(sg * sg[pi] - 1).max()) < TOL):
+        return "S = U * MCX is not an involution"
+    if gate == "vchain":
+        touch = set(ctrl[:-1]) | set(anc)
+        amask = np.int64(sum(1 << w for w in anc))
+        if np.any((pi ^ idx) & ~amask):
+            return "the permutation part of S changes a wire that is not a borrowed qubit"
+    else:
+        touch = set(ctrl)
+    for q in range(n):
+        if q in touch:
+            continue
+        b = np.int64(1 << q)
+        if not (np.array_equal(pi[idx ^ b], pi ^ b) and float(np.abs(sg[idx ^ b] - sg).max()) < TOL):
+            return f"S depends on / acts on the free wire {q}"
+    return None
+
+
+def div_back_lines(gates, wires):
+    """Gate list of the host with the host wires mapped back to the gate's own wires (a gate that landed on a host wire
+    outside the qubit list keeps a label `host<w>`, which no model line contains)."""
+    from flatten import to_lines
+    back = {w: j for j, w in enumerate(wires)}
+    return to_lines([(nm, [back.get(w, f"host{w}") for w in ws], ps) for nm, ws, ps in gates])
+
+
+def div_eval(case):
+    """One diversity case on the real code -> (key, status, detail, replay, extra).  status: ok | fail | unsupported."""
+    from qiskit import QuantumCircuit, QuantumRegister
+    from qiskit.quantum_info import Operator, Statevector
+    from flatten import flatten, to_lines
+    gate, p, use = case["gate"], case["p"], case["use"]
+    key = div_key(case)
+    rep = {"kind": "diversity", "method": "diversity", "params": p, "case": case}
+    wires, n = div_wires(case)
+    unsupported = case["ktype"] == "np.int64" or case["cstype"] == "int"
+    tie = None
+    try:
+        regs = {nm: QuantumRegister(sz, nm) for nm, sz in case["host"]}
+        host = QuantumCircuit(*[regs[nm] for nm, _ in case["host"]])
+        g = div_make_gate(case)
+        qargs = div_qargs(case, host, regs, case["place"])
+        if use == "append":
+            host.append(g, qargs)
+        elif use == "twice":
+            host.append(g, qargs)
+            host.append(g, qargs)
+        elif use == "copy":
+            c = g.copy()                                    # before .definition is first read
+            host.append(g, qargs)
+            host.append(c, div_qargs(case, host, regs, case["place2"]))
+        elif use == "inverse":
+            host.append(g.inverse(), qargs)
+        elif use == "compose":
+            host.compose(g.definition, qubits=qargs, inplace=True)
+        elif use == "to_gate":
+            host.append(g.definition.to_gate(), qargs)
+        elif use == "to_instruction":
+            host.append(g.definition.to_instruction(), qargs)
+        elif use == "ao-structure":
+            host.append(g, qargs)
+        elif use == "ccx":
+            div_call_ccx(case, host, regs, wires)
+        elif use == "bracket":
+            ctrl, anc, tg = div_split(gate, p, wires)
+            idle = [w for w in range(n) if w not in wires]
+            mid = QuantumCircuit(n)
+            mid.h(tg[0])
+            if gate == "vchain":
+                mid.cp(0.7, ctrl[-1], tg[-1])
+            else:
+                mid.cx(tg[0], anc[0])
+            if idle:
+                mid.cry(1.1, tg[0], idle[0])
+            host.append(g, qargs)
+            host.compose(mid, inplace=True)
+            host.append(g.inverse(), qargs)
+        else:
+            raise RuntimeError("harness: unknown use " + use)
+        gates = flatten(host)
+        ao_use = use in ("bracket", "ao-structure")
+        if n <= (DIV_AO_OP_MAX if ao_use else DIV_OP_MAX):
+            op = Operator(host).data
+        elif n <= DIV_SV_MAX and not ao_use:
+            rng = np.random.default_rng(case["seed"])
+            vin = rng.normal(size=2 ** n) + 1j * rng.normal(size=2 ** n)
+            vin /= np.linalg.norm(vin)
+            vout = Statevector(vin).evolve(host).data
+    except RuntimeError:
+        raise
+    except Exception as e:
+        if isinstance(e, IndexError) and gate != "toffoli" and expected_reject(p):
+            return key, "ok", "over-long ctrl_state with a high '0' rejected with the documented IndexError", rep, None
+        if unsupported:
+            return key, "unsupported", f"{case['ktype']}/{case['cstype']}:unsupported-form-raises-{type(e).__name__}", rep, None
+        if use == "to_gate" and type(e).__name__ == "QiskitError" and "cannot be converted to a gate" in str(e):
+            # the definitions append QuantumCircuit objects (toffoli_multi_target, the sub-chains of LinearMcx), which
+            # qiskit turns into Instructions: `definition.to_gate()` is refused by qiskit wherever such a block occurs.
+            # Nothing in qclib promises it; counted, not a failing input of the property.
+            return key, "unsupported", "definition.to_gate():unsupported-form-raises-QiskitError", rep, None
+        return key + ":raises", "fail", f"{type(e).__name__}: {str(e)[:200]}", rep, None
+    # ---- expected ----
+    if gate == "toffoli":
+        m = toffoli_ref(p.get("cancel"))
+        if use == "twice":
+            exp = embed(m @ m, wires, n)
+        elif use == "copy":
+            exp = embed(m, div_wires(case, case["place2"])[0], n) @ embed(m, wires, n)
+        elif use == "inverse":
+            exp = embed(m.conj().T, wires, n)
+        else:
+            exp = embed(m, wires, n)
+        err = float(np.abs(op - exp).max())
+        if use in ("append", "compose", "to_gate", "to_instruction", "ccx"):
+            tie = ({"op": "toffoli", "cancel": p.get("cancel") or "none"}, div_back_lines(gates, wires))
+        return key, ("fail" if err > TOL else "ok"), f"max |Operator(host) - Toffoli on wires {wires}| = {err:.3e}", \
+            dict(rep, err=err), {"tie": tie, "n": n}
+    if use in ("append", "compose", "to_gate", "to_instruction", "ao-structure"):
+        # the model numbers the wires controls, borrowed, targets (V-chain) / controls, target, ancilla (linear) = local order
+        o = {"op": gate, "k": p["k"], "ao": p["ao"]}
+        if gate == "vchain":
+            o.update(t=p["t"], rp=p["rp"])
+        if p.get("cs") is not None:
+            o["cs"] = p["cs"]
+        tie = (o, div_back_lines(gates, wires))
+    extra = {"tie": tie, "n": n}
+    if gate != "toffoli" and expected_reject(p):
+        return key, "fail", "over-long ctrl_state with a '0' beyond the controls was accepted (the bare gate raises IndexError)", \
+            rep, {"tie": None, "n": n}
+    if p.get("rp") and p.get("t", 1) != 1 or (p.get("rp") and p.get("ao")):
+        return key, "tie-only", "outside the property (relative phase with several targets / with action_only)", rep, extra
+    if use == "ao-structure":
+        if n > DIV_AO_OP_MAX:
+            return key, "tie-only", "host too large for the Operator", rep, extra
+        bad = div_ao_structure(gate, p, n, wires, op)
+        return key, ("fail" if bad else "ok"), bad or "S = U * MCX has the structure of the action_only theorems", rep, extra
+    if use == "bracket":
+        if n > DIV_AO_OP_MAX:
+            return key, "tie-only", "host too large for the Operator", rep, extra
+        ctrl, anc, tg = div_split(gate, p, wires)
+        dest = ref_dest(n, ctrl, pattern_bits(p["k"], p.get("cs")), tg)
+        pm = np.zeros((2 ** n, 2 ** n))
+        pm[dest, np.arange(2 ** n)] = 1
+        exp = pm @ Operator(mid).data @ pm
+        err = float(np.abs(op - exp).max())
+        return key, ("fail" if err > TOL else "ok"), \
+            f"max |chain(action_only) ; mid ; chain.inverse() - MCX ; mid ; MCX| = {err:.3e}", dict(rep, err=err), extra
+    m1 = mono_ideal(n, gate, p, wires)
+    if use == "twice":
+        mono = mono_then(m1, m1)
+    elif use == "copy":
+        mono = mono_then(m1, mono_ideal(n, gate, p, div_wires(case, case["place2"])[0]))
+    elif use == "inverse":
+        mono = mono_inv(m1)
+    else:
+        mono = m1
+    dest, coeff, known = mono
+    idx = np.arange(2 ** n)
+    rp = bool(p.get("rp"))
+    errs, sign_err = {}, None
+    if n <= DIV_OP_MAX:
+        ent = op[dest, idx].copy()
+        rest = op.copy()
+        rest[dest, idx] = 0
+        off = float(np.abs(rest).max())
+        errs["operator"] = max(off, float(np.abs(np.abs(ent) - 1).max()) if rp else float(np.abs(ent - coeff).max()))
+        if rp and known:
+            sign_err = float(np.abs(ent - coeff).max())
+    elif n <= DIV_SV_MAX:
+        exp = np.zeros_like(vin)
+        exp[dest] = coeff * vin
+        errs["statevector"] = float(np.abs(np.abs(vout) - np.abs(exp)).max()) if rp else float(np.abs(vout - exp).max())
+        if rp and known:
+            sign_err = float(np.abs(vout - exp).max())
+    for name, terms in case.get("states", []):
+        ii = [t[0] for t in terms]
+        aa = [complex(t[1], t[2]) for t in terms]
+        got = to_dict(*sparse_apply(gates, ii, aa))
+        want = {}
+        for i, a in zip(ii, aa):
+            j = int(dest[i])
+            want[j] = want.get(j, 0) + a * coeff[i]
+        e = 0.0
+        for j in set(got) | set(want):
+            gv, wv = got.get(j, 0), want.get(j, 0)
+            e = max(e, abs(abs(gv) - abs(wv)) if rp else abs(gv - wv))
+        errs["state:" + name] = e
+    worst = max(errs, key=errs.get)
+    err = errs[worst]
+    extra.update(err=err, sign_err=sign_err, methods=sorted(errs))
+    return key, ("fail" if err > TOL else "ok"), \
+        f"host of {n} qubits, gate on wires {wires}: max error {err:.3e} at {worst}", dict(rep, err=err, worst=worst), extra
+
+
+def div_record(ctx, case, res, with_tie=True):
+    key, status, detail, rep, extra = res
+    p = case["p"]
+    if extra and extra.get("tie") and with_tie:
+        # the same (op, gate list) pair is sent to the driver once; a placement whose mapped-back gate list differs from
+        # an earlier one of the same op is a new pair and is sent (and then diffs)
+        seen = ctx.__dict__.setdefault("_div_tie_seen", set())
+        sig = (json.dumps(extra["tie"][0], sort_keys=True), "\n".join(extra["tie"][1]))
+        ctx.count("diversity:tie:host wires mapped back to the gate")
+        if sig not in seen:
+            seen.add(sig)
+            ctx.tie(extra["tie"][0], extra["tie"][1], label="host placement " + key)
+    if status == "unsupported":
+        ctx.count(f"diversity:{case['gate']}:{detail}")
+        return
+    if status == "tie-only":
+        ctx.count("diversity:tie-only (outside the property)")
+        return
+    if status == "ok":
+        ctx.ok(key, nontrivial=case["gate"] == "toffoli" or p["k"] >= 2)
+        if extra and extra.get("sign_err") is not None:
+            ctx.assumption_checks += 1
+            if extra["sign_err"] > TOL:
+                ctx.obligation_broken("relphase diagonal of the code = relSign of C05_vchain_relphase",
+                                      f"{key}: differs by {extra['sign_err']:.3e}")
+    else:
+        ctx.fail(key, detail, rep)
+
+
+def diversity_cases(ctx):
+    r = ctx.rng
+    cases = []
+    rot = [0]
+
+    def forms(gate, uses=DIV_USES):
+        """next combination of (use, ctor, host style, register order, qubit form) in rotation: every value of every
+        family is met every few cases, and the combinations change from seed to seed"""
+        i = rot[0]
+        rot[0] += 1
+        return dict(use=uses[i % len(uses)], ctor=DIV_CTORS[(i // 2) % 3], style=("flat", "regs")[(i // 3) % 2],
+                    order=DIV_ORDERS[i % 5], qform=DIV_QFORMS[(i + i // 4) % 4])
+
+    def mixed(k):
+        return "".join("10"[(k - 1 - j) % 2] for j in range(k))
+
+    def some_cs(k):
+        return r.choice([None, "1" * k, "0" * k, mixed(k), "".join(r.choice("01") for _ in range(k))])
+
+    rot[0] = r.randrange(140)
+    # ---- sizes x flags, call forms in rotation ----
+    for k in range(1, 6):
+        for t in (1, 2, 3):
+            for rp in (False, True):
+                for ao in (False, True):
+                    p = dict(k=k, t=t, cs=some_cs(k), rp=rp, ao=ao)
+                    f = forms("vchain")
+                    if ao:
+                        f["use"] = ("ao-structure", "bracket")[(k + t) % 2] if not rp else "append"
+                    ctx.count("diversity:vchain:sizes x flags x call form")
+                    cases.append(div_case(r, "vchain", p, **f))
+    for k in range(1, 9):
+        for ao in (False, True):
+            for rep_ in range(2 if k >= 5 else 1):
+                p = dict(k=k, cs=some_cs(k), ao=ao)
+                f = forms("linear")
+                if ao:
+                    f["use"] = ("ao-structure", "bracket")[(k + rep_) % 2]
+                ctx.count("diversity:linear:sizes x flags x call form")
+                cases.append(div_case(r, "linear", p, **f))
+    # ---- every call form at fixed non-trivial sizes (general chain k = 4, 3-control shortcut, linear first split) ----
+    for use in DIV_USES:
+        for gate, p in (("vchain", dict(k=4, t=1, cs="0110", rp=False, ao=False)),
+                        ("vchain", dict(k=4, t=1, cs="1010", rp=True, ao=False)),
+                        ("vchain", dict(k=3, t=2, cs="010", rp=False, ao=False)),
+                        ("linear", dict(k=6, cs="010110", ao=False)),
+                        ("linear", dict(k=5, cs="10010", ao=False))):
+            f = forms(gate)
+            f["use"] = use
+            ctx.count("diversity:use:" + use)
+            cases.append(div_case(r, gate, p, **f))
+    for i, (style, order) in enumerate([("natural", "cati"), ("flat", "cati")] + [("regs", o) for o in DIV_ORDERS]):
+        for j, qform in enumerate(DIV_QFORMS):
+            for gate, p in (("vchain", dict(k=3, t=2, cs="100", rp=False, ao=False)),
+                            ("vchain", dict(k=4, t=1, cs="0101", rp=(i + j) % 2 == 1, ao=False)),
+                            ("linear", dict(k=4, cs="0011", ao=False))):
+                ctx.count(f"diversity:host:{style}" + ("/" + order if style == "regs" else ""))
+                ctx.count("diversity:qubits-as:" + qform)
+                cases.append(div_case(r, gate, p, use="append", ctor=DIV_CTORS[(i + j) % 3], style=style, order=order,
+                                      qform=qform))
+    # ---- constructor forms: every keyword at once / one at a time ----
+    for ctor in DIV_CTORS:
+        ctx.count("diversity:ctor:every keyword non-default at once:" + ctor)
+        cases.append(div_case(r, "vchain", dict(k=4, t=2, cs="0110", rp=True, ao=True), ctor=ctor, style="flat"))
+        cases.append(div_case(r, "vchain", dict(k=5, t=1, cs="01101", rp=True, ao=True), ctor=ctor, style="natural"))
+        cases.append(div_case(r, "linear", dict(k=7 if ctor == "keyword" else 6, cs="0110100"[:7 if ctor == "keyword" else 6],
+                                             ao=True), use="ao-structure", ctor=ctor, style="natural"))
+        for p in (dict(k=4, t=2, cs=None, rp=False, ao=False), dict(k=4, t=1, cs="0010", rp=False, ao=False),
+                  dict(k=4, t=1, cs=None, rp=True, ao=False), dict(k=4, t=1, cs=None, rp=False, ao=True)):
+            ctx.count("diversity:ctor:one keyword at a time:" + ctor)
+            cases.append(div_case(r, "vchain", p, use="ao-structure" if p["ao"] else "append", ctor=ctor,
+                                  style="regs", order=r.choice(DIV_ORDERS), qform=r.choice(DIV_QFORMS)))
+        for p in (dict(k=6, cs=None, ao=False), dict(k=6, cs="101101", ao=False), dict(k=6, cs=None, ao=True)):
+            ctx.count("diversity:ctor:one keyword at a time:" + ctor)
+            cases.append(div_case(r, "linear", p, use="bracket" if p["ao"] else "append", ctor=ctor, style="flat",
+                                  qform=r.choice(DIV_QFORMS)))
+    # ---- element types ----
+    for gate, p in (("vchain", dict(k=1, t=1, cs="0", rp=False, ao=False)), ("vchain", dict(k=1, t=1, cs=None, rp=True, ao=False)),
+                    ("linear", dict(k=1, cs="0", ao=False))):
+        ctx.count("diversity:types:num_controls / num_target_qubit = True")
+        cases.append(div_case(r, gate, p, ktype="bool", ctor=r.choice(DIV_CTORS)))
+    for gate, p in (("vchain", dict(k=4, t=2, cs="0110", rp=False, ao=False)), ("linear", dict(k=6, cs="011010", ao=False))):
+        ctx.count("diversity:types:num_controls numpy.int64")
+        cases.append(div_case(r, gate, p, ktype="np.int64"))
+        ctx.count("diversity:types:ctrl_state int")
+        cases.append(div_case(r, gate, p, cstype="int"))
+    for cstype in ("list", "tuple"):
+        for gate, p in (("vchain", dict(k=4, t=1, cs="0100", rp=False, ao=False)), ("vchain", dict(k=3, t=1, cs="110", rp=True, ao=False)),
+                        ("vchain", dict(k=2, t=3, cs="01", rp=False, ao=False)), ("linear", dict(k=6, cs="110100", ao=False)),
+                        ("linear", dict(k=3, cs="001", ao=False))):
+            ctx.count("diversity:types:ctrl_state " + cstype + " of characters")
+            cases.append(div_case(r, gate, p, cstype=cstype, ctor=r.choice(DIV_CTORS), style=r.choice(["flat", "regs"]),
+                                  order=r.choice(DIV_ORDERS)))
+    for k in (1, 2, 3, 4, 5):
+        for cs in ("1" * k, "0" * k):
+            ctx.count("diversity:ctrl_state all-ones / all-zeros")
+            cases.append(div_case(r, "vchain", dict(k=k, t=r.choice((1, 2)), cs=cs, rp=False, ao=False), **forms("vchain")))
+            cases.append(div_case(r, "linear", dict(k=k + 3, cs=cs[0] * (k + 3), ao=False), **forms("linear")))
+    # ---- ctrl_state shorter (accepted: missing positions are ones) / longer (accepted without, rejected with a high '0') ----
+    for k, cs in ((3, "0"), (4, "10"), (5, ""), (2, "111"), (2, "011"), (3, "0111"), (1, "00"), (4, "10110"), (6, "01"), (6, "1111110")):
+        for gate in ("vchain", "linear"):
+            p = dict(k=k, cs=cs, ao=False)
+            if gate == "vchain":
+                p.update(t=r.choice((1, 2)), rp=False)
+            f = forms(gate, uses=("append", "copy", "inverse", "compose", "to_instruction"))
+            ctx.count("diversity:ctrl_state length != num_controls:" + ("reject" if expected_reject(p) else "accepted"))
+            cases.append(div_case(r, gate, p, **f))
+    # ---- relative-phase Toffoli gate object ----
+    for cancel in (None, "left", "right"):
+        for use in DIV_USES:
+            f = forms("toffoli")
+            f["use"] = use
+            ctx.count("diversity:toffoli gate object:" + use)
+            cases.append(div_case(r, "toffoli", dict(cancel=cancel), **f))
+    return cases
+
+
 def run(ctx, scale=0, with_majority=True):
     assumptions(ctx)
     quick = ctx.quick
@@ -631,6 +1436,15 @@ def run(ctx, scale=0, with_majority=True):
                         jobs.append(("sparse", (kind, p, idx, amp, desc)))
     jobs += boundary_jobs(ctx)
     run_jobs(ctx, jobs)
+    if os.environ.get("C05_NO_DIVERSITY"):       # timing aid only (before / after measurements)
+        return MAJ.run(ctx) if (MAJ is not None and with_majority) else None
+    run_diversity(ctx)
+    ctx.notes.append("diversity pass: gate objects on larger hosts (permuted / non-contiguous qubit lists, register hosts in 5 "
+                     "declaration orders, qubits as int / numpy int / Qubit), constructor call forms, element types, reuse "
+                     "(twice, copy before definition, inverse, compose / to_gate / to_instruction), action_only bracket and "
+                     "leftover-relabelling structure, static Toffoli.ccx in every argument form; the static MCX helpers raise "
+                     "on every call (K-C15-1 / K-C15-2) and are only counted; definition.to_gate() is refused by qiskit "
+                     "where the definition contains an appended QuantumCircuit (counted as unsupported form)")
     ctx.notes.append("dense Operator up to %d qubits (10 in the thorough tier), random dense Statevector up to %d, sparse "
                      "simulation of the real flattened gate list beyond (basis controls/targets, borrowed qubits basis or "
                      "|+>,|->,|+i>)" % (DENSE_OP_MAX, DENSE_SV_MAX))
@@ -687,6 +1501,12 @@ def replay(ctx, payload):
         return
     if m == "entry":
         toffoli_entry(ctx)
+        return
+    if m == "diversity":
+        div_record(ctx, r["case"], div_eval(r["case"]), with_tie=False)
+        return
+    if m == "diversity-static":
+        static_mcx_helpers(ctx)
         return
     if m == "construct":
         circ, gates, gerr = gate_list(kind, p)
